@@ -174,6 +174,7 @@ MUTANTS = [
     ('fsdepth', LEX, 'state.bracket_depth = state.bracket_depth.saturating_sub(1);', 'state.bracket_depth -= 1;', 'track_fstring_bracket'),
     ('int', BIG, '        Ok(Some(NumRef::Int(StarlarkIntRef::Big(self))) == other.unpack_num())', '        match other.unpack_num() {\n            Some(NumRef::Float(_)) => Ok(false),\n            other => Ok(Some(NumRef::Int(StarlarkIntRef::Big(self))) == other),\n        }', 'C09.value.big.equals'),
     ('int', BIG, '        Ok(Some(NumRef::Int(StarlarkIntRef::Big(self))) == other.unpack_num())', '        Ok(other.unpack_num() == Some(NumRef::Int(StarlarkIntRef::Big(self))))', 'EQUIVALENT'),
+    ('int', BIG, '        Ok(Some(NumRef::Int(StarlarkIntRef::Big(self))) == other.unpack_num())', '        match other.unpack_num() {\n            Some(NumRef::Float(f)) if f.0 >= i32::MIN as f64 && f.0 <= -(i32::MIN as f64) => {\n                Ok(false)\n            }\n            other => Ok(Some(NumRef::Int(StarlarkIntRef::Big(self))) == other),\n        }', 'C09.value.big.equals'),   # seed C09c/m2 verbatim: needs rule A15 (unary float negation)
     ('int', BIG, '            Some(other) => Ok(NumRef::Int(StarlarkIntRef::Big(self)).cmp(&other)),', '            Some(other) => Ok(other.cmp(&NumRef::Int(StarlarkIntRef::Big(self)))),', 'C09.value.big.compare'),
     ('slots', EVL, '        let value_captured = value_captured_get(value_captured);\n        value_captured\n            .ok_or_else(|| self.local_var_referenced_before_assignment(LocalSlotId(slot.0)))', '        Ok(value_captured_get(value_captured).expect("captured slot is assigned"))', 'get_slot_local_captured'),
     ('slots', EVL, '        let value_captured = self.get_slot_local(self.current_frame, LocalSlotId(slot.0))?;', '        let value_captured = self.get_slot_local(self.current_frame, LocalSlotId(slot.0 + 1))?;', 'get_slot_local_captured'),
